@@ -23,7 +23,7 @@ def esc(s):
 
 
 def _model_chunk(lines):
-    p = subprocess.run(["bash", "-c", f"ulimit -s unlimited; exec {vlib.MODEL} dce"], input="\n".join(lines) + "\n",
+    p = vlib.srun(["bash", "-c", f"ulimit -s unlimited; exec {vlib.MODEL} dce"], input="\n".join(lines) + "\n",
                        stdout=subprocess.PIPE, stderr=subprocess.PIPE, text=True, timeout=3000)
     return p.returncode, p.stdout, p.stderr
 
